@@ -40,9 +40,10 @@ CLAIM = dict(
           "their resolution and rejection are still checked.  Board arguments that are iterables are outside the generators."),
     technique="Lean 4 theorems over a hand-written model + translator for signatures/constants + differential correspondence + Lean spec as oracle")
 
-THEOREMS = ["signatures_wellformed", "precedence", "required_rejected", "accepted_complete", "restore",
-            "restore_inner", "rejected_sends_nothing", "application_stops", "connection_choice_mc",
-            "connection_choice_bmp"]
+THEOREMS = ["signatures_wellformed", "every_method_has_rule", "precedence", "precedence_accepted", "ctxLookup_innermost",
+            "required_rejected", "rejected_names_required", "accepted_complete", "rejected_sends_nothing",
+            "restore", "restore_application", "restore_inner", "restore_arguments",
+            "stop_targets_application", "application_stops", "connection_choice_mc", "connection_choice_bmp"]
 
 RULE = ("systematic part: every decorated method of MachineController and BMPController x passing style (positional, keyword, "
         "context, default, mixed) x nesting (none, one block, two blocks with partial override, block left by exception then "
